@@ -20,7 +20,7 @@ func init() {
 	engine.Register(&engine.Property{
 		ID:    "C04",
 		Level: "fault_enumeration",
-		Rule: "for every configuration (n, a, m, predicate placement) with n <= 7 (8 thorough; 9 at seeded positions) and EVERY save position k in 0..len(output) (before the first Next, after each k-th, after exhaustion): a fresh iterator is advanced k times (checked against the reference log S of an uninterrupted run), saved, loaded, and then original and loaded copy are advanced alternately; both must yield exactly S[k:], in order, and then report exhaustion twice. Chains save-load-advance-save-load of depth 3 at seeded positions; periodic checkpoints: ONE iterator saved again and again while it advances, into the same buffer (reset or growing) and into fresh buffers, each checkpoint loaded on its own. " +
+		Rule: "for every configuration (n, a, m, predicate placement) with n <= 7 (8 thorough; 9 at seeded positions; n = 10..14 (18 thorough) at 8 positions among the first 320 values, compared on the next 40 values with the prefix of an uninterrupted run) and EVERY save position k in 0..len(output) (before the first Next, after each k-th, after exhaustion): a fresh iterator is advanced k times (checked against the reference log S of an uninterrupted run), saved, loaded, and then original and loaded copy are advanced alternately; both must yield exactly S[k:], in order, and then report exhaustion twice. Chains save-load-advance-save-load of depth 3 at seeded positions; periodic checkpoints: ONE iterator saved again and again while it advances, into the same buffer (reset or growing) and into fresh buffers, each checkpoint loaded on its own. " +
 			"non-trivial = save position strictly inside the output (0 < k < len(S)); distinct = (configuration, k) by construction",
 		Assumptions: []string{
 			"the reference log S is the output of one uninterrupted run of the same configuration in the same process (C03 judges S itself)",
@@ -30,7 +30,7 @@ func init() {
 		Run:            run,
 		MinEvaluations: map[string]int{"quick": 300000, "thorough": 20000000},
 		MinNontrivial:  map[string]int{"quick": 3000, "thorough": 30000},
-		RequiredObs:    []string{"failed_save_attempts", "saves_on_same_iterator", "save_points", "save_points_after_exhaustion", "save_points_before_first", "chains", "interleaved_steps", "configs_with_predicate"},
+		RequiredObs:    []string{"save_points_in_orders>=10(prefix of the output)", "failed_save_attempts", "saves_on_same_iterator", "save_points", "save_points_after_exhaustion", "save_points_before_first", "chains", "interleaved_steps", "configs_with_predicate"},
 	})
 }
 
@@ -83,7 +83,11 @@ func (m *mon) viol(kind string, k int, detail map[string]interface{}, obs, exp s
 }
 
 // reference runs the configuration uninterrupted.
-func (m *mon) reference() ([]string, bool) {
+func (m *mon) reference() ([]string, bool) { return m.referenceN(0) }
+
+// referenceN stops after limit values (0 = run to the end): a prefix of the output, for orders whose whole output
+// is out of reach.
+func (m *mon) referenceN(limit int) ([]string, bool) {
 	var S []string
 	var it *search.GraphIterator
 	key := "resume|" + m.cf.name() + "|reference"
@@ -107,6 +111,9 @@ func (m *mon) reference() ([]string, bool) {
 			return S, true
 		}
 		S = append(S, g6)
+		if limit > 0 && len(S) >= limit {
+			return S, true
+		}
 		if len(S) > 300000 {
 			m.c.Inconclusive("reference run of " + m.cf.name() + " exceeds 300000 values")
 			return nil, false
@@ -460,6 +467,38 @@ func run(c *engine.Ctx) {
 			})
 		}
 	}
+	// orders 10..14 (thorough: ..18): the output is out of reach but its first few hundred values are not.  Save
+	// positions near the start, compared with the prefix of an uninterrupted run (widths of the saved fields change
+	// with n: the stack of choices has one entry per vertex and its entries one bit per vertex)
+	maxDeep := c.Pick(14, 18)
+	for n := 10; n <= maxDeep; n++ {
+		for ci, am := range [][2]int{{0, 1}, {1, 3}, {1, 2}} {
+			n, ci, am := n, ci, am
+			c.Unit(fmt.Sprintf("deep/n%d-a%d-m%d", n, am[0], am[1]), func() {
+				cf := config{n, am[0], am[1], -1, 0}
+				m := &mon{c: c, cf: cf}
+				L := 40
+				ks := []int{0, 1, 2, 3, 7, 20}
+				r := c.Rand("c04-deep", n*8+ci)
+				ks = append(ks, 21+r.Intn(100), 121+r.Intn(200))
+				S, ok := m.referenceN(ks[len(ks)-1] + L)
+				if !ok {
+					return
+				}
+				for _, k := range ks {
+					if k+L > len(S) {
+						continue // the shard is shorter than the prefix asked for
+					}
+					if !m.checkPosition(S[:k+L], k, L) {
+						return
+					}
+					c.Obs("save_points_in_orders>=10(prefix of the output)", 1)
+				}
+				c.Obs("positions_n="+fmt.Sprint(n), len(ks))
+			})
+		}
+	}
+
 	// n = 9 at seeded positions (thorough)
 	if c.Thorough() {
 		for u := 0; u < 50; u++ {
